@@ -23,6 +23,8 @@ Spont ==
   \/ (\E c \in Chans : Prepare(c, Len(inbox[c]))) \/ AppendStartAny \/ LookupAny \/ EffStartAny
   \/ \E s \in 1..Len(stops) : StopReturn(s, "done")
 
+Cancellable == {i \in 1..Len(items) : ~items[i].x /\ \E x \in 1..Len(infl[items[i].c]) :
+                   infl[items[i].c][x].ph = "start" /\ i \in Ran(infl[items[i].c][x].uniq)}
 Parked == {<<c, x>> \in Chans \X (1..2) : x <= Len(infl[c]) /\ infl[c][x].ph \in {"start", "rstart"}}
 OneItem == {<<[k |-> k, p |-> p]>> : k \in Keys \cup {NoKey}, p \in Pays}
 
@@ -45,6 +47,9 @@ Driver ==
   \/ \E cx \in Some(Parked), o \in {"ok", "conflict"} : AppendEnd(cx[1], cx[2], o)
   \/ \E cx \in Some(Parked), o \in Pick({"failBefore", "failAfter"}) : AppendEnd(cx[1], cx[2], o)
   \/ EffEndAny
+  \* a submitter gives up on an item that is at the Appender; the shard's cleanup drops an idle writer
+  \/ \E i \in Some(Cancellable) : CancelItem(i)
+  \/ \E c \in Some({c \in Chans : Reclaimable(c)}) : Reclaim(c)
   \* stop: short and long deadlines at any point, a deadline expiring
   \/ (RandomElement(1..3) = 1 /\ StopCall("short"))
   \/ (RandomElement(1..4) = 1 /\ StopCall("long"))
@@ -59,6 +64,8 @@ End(c, x, out) == [op |-> "end", c |-> c, x |-> x, out |-> out]      \* out "aut
 EffDone(c)     == [op |-> "effend", c |-> c]
 Stop(dl)       == [op |-> "stop", dl |-> dl]
 Expire(s)      == [op |-> "timeout", s |-> s]
+Cancel(i)      == [op |-> "cancel", i |-> i]
+Recl(c)        == [op |-> "reclaim", c |-> c]
 Cfg(i, h, cp, e) == [inflight |-> i, hw |-> h, cap |-> cp, eff |-> e]
 
 Scenarios == {
@@ -104,6 +111,30 @@ Scenarios == {
   [name |-> "channel-busy", cfg |-> Cfg(1, 2, 99, FALSE), cmds |->
      << Sub(1, <<I(0,1)>>), Sub(1, <<I(0,1)>>), Sub(1, <<I(1,1)>>), Sub(1, <<I(0,1), I(0,1)>>), End(1, 1, "auto"), Sub(1, <<I(1,1)>>),
         End(1, 1, "auto"), End(1, 1, "auto") >>],
+  \* item contexts: a miss of a recovered batch whose submitter gave up while the first attempt was at
+  \* the Appender is answered "canceled" in its own position, the other misses are retried
+  [name |-> "cancelled-miss-before-active-miss", cfg |-> Cfg(1, 99, 99, FALSE), cmds |->
+     << Sub(1, <<I(1,1)>>), End(1, 1, "auto"), Sub(1, <<I(1,1), I(2,1), I(0,1)>>), Cancel(3), End(1, 1, "auto"), End(1, 1, "auto"),
+        Sub(1, <<I(2,1)>>), End(1, 1, "auto") >>],
+  [name |-> "cancelled-misses-around-active-miss", cfg |-> Cfg(1, 99, 99, FALSE), cmds |->
+     << Sub(1, <<I(2,1)>>), End(1, 1, "auto"), Sub(1, <<I(0,1), I(0,2), I(2,1), I(1,1), I(0,1)>>), Cancel(2), Cancel(6), End(1, 1, "auto"),
+        End(1, 1, "auto") >>],
+  [name |-> "cancelled-last-miss-and-all-misses", cfg |-> Cfg(1, 99, 99, FALSE), cmds |->
+     << Sub(1, <<I(1,1)>>), End(1, 1, "auto"), Sub(1, <<I(1,1), I(0,1), I(2,1)>>), Cancel(4), End(1, 1, "auto"), End(1, 1, "auto"),
+        Sub(1, <<I(1,1), I(0,1)>>), Cancel(6), End(1, 1, "auto") >>],
+  [name |-> "cancel-ignored-without-recovery", cfg |-> Cfg(1, 99, 99, FALSE), cmds |->
+     << Sub(1, <<I(1,1), I(2,1)>>), Cancel(1), End(1, 1, "failBefore"), Sub(2, <<I(1,1), I(0,1)>>), Cancel(4), End(2, 1, "auto") >>],
+  [name |-> "cancelled-miss-two-in-flight", cfg |-> Cfg(2, 99, 99, FALSE), cmds |->
+     << Sub(1, <<I(1,1)>>), End(1, 1, "auto"), Sub(1, <<I(1,1), I(2,1), I(0,1)>>), Sub(1, <<I(0,2)>>), Cancel(3), End(1, 1, "auto"),
+        End(1, 1, "auto"), End(1, 1, "auto") >>],
+  \* writer reclaim: the shard's cleanup runs while an append of another channel is held at the
+  \* Appender; the channel's next send must still wait for that append
+  [name |-> "reclaim-while-append-in-flight", cfg |-> Cfg(1, 99, 99, FALSE), cmds |->
+     << Sub(1, <<I(0,1)>>), Sub(2, <<I(0,1)>>), End(2, 1, "auto"), Recl(2), Sub(1, <<I(0,1)>>), Sub(2, <<I(0,1)>>), End(2, 1, "auto"),
+        End(1, 1, "auto"), End(1, 1, "auto"), Recl(1), Recl(2), Sub(1, <<I(0,1)>>), End(1, 1, "auto") >>],
+  [name |-> "reclaim-with-effects-and-retry", cfg |-> Cfg(1, 99, 99, TRUE), cmds |->
+     << Sub(1, <<I(1,1)>>), Sub(2, <<I(1,1)>>), End(2, 1, "auto"), EffDone(2), Recl(2), Sub(1, <<I(1,1), I(0,1)>>), End(1, 1, "auto"),
+        EffDone(1), End(1, 1, "auto"), End(1, 1, "auto"), EffDone(1), Recl(1), Sub(1, <<I(1,1)>>), End(1, 1, "auto") >>],
   [name |-> "admission-backpressure", cfg |-> Cfg(1, 99, 2, FALSE), cmds |->
      << Sub(1, <<I(0,1)>>), Sub(2, <<I(0,1)>>), Sub(1, <<I(0,1)>>), End(1, 1, "auto"), Sub(1, <<I(0,1)>>), End(2, 1, "auto"),
         End(1, 1, "auto") >>]
@@ -119,6 +150,8 @@ RunCmd(cmd) ==
     [] cmd.op = "effend"  -> EffEnd(cmd.c)
     [] cmd.op = "stop"    -> StopCall(cmd.dl)
     [] cmd.op = "timeout" -> StopReturn(cmd.s, "timeout")
+    [] cmd.op = "cancel"  -> CancelItem(cmd.i)
+    [] cmd.op = "reclaim" -> Reclaim(cmd.c)
 
 Step ==
   IF SpontEnabled THEN Spont /\ UNCHANGED script
